@@ -17,6 +17,13 @@ SETS = [("/verif/seeded", False), ("/verif/seeded-benign", True)]
 def run(root, n, benign):
     prop = n[:3]
     patch = os.path.join(root, n, "patch.diff")
+    meta_p = os.path.join(root, n, "meta.json")
+    meta = json.load(open(meta_p)) if os.path.exists(meta_p) else {}
+    # a change its author filed under one property may break another one's statement instead
+    # (meta "checked_by"): it is then run against that property's check, and says so in the verdict
+    other = meta.get("checked_by")
+    if other:
+        prop = other
     p = subprocess.run(["/verif/tools/seedtest.sh", prop, patch], stdout=subprocess.PIPE, stderr=subprocess.STDOUT,
                        text=True, errors="replace")
     sigs = re.findall(r"signature: (.*)", p.stdout)
@@ -28,8 +35,8 @@ def run(root, n, benign):
         status = "silent" if rc == "0" else ("ALARM" if rc == "1" else "inconclusive (exit %s)" % rc)
     else:
         status = "DETECTED" if rc == "1" else "missed (exit %s)" % rc
-    meta_p = os.path.join(root, n, "meta.json")
-    meta = json.load(open(meta_p)) if os.path.exists(meta_p) else {}
+        if other:
+            status += " by the %s check" % other
     meta["quick_check_verdict"] = status
     meta["quick_check_signatures"] = sigs[:8]
     meta["quick_check_repo_head"] = subprocess.run(["git", "-C", "/repo", "rev-parse", "--short", "HEAD"],
